@@ -347,7 +347,8 @@ class PySide(object):
             tr = ids([self.fid[x] for x in s._assertion_stack])
             bp = s._backtrack_points
             # never print an unbounded list (state leaking between instances would make it grow for ever)
-            pts = ids(list(reversed(bp[-24:]))) + ("..(%d)" % len(bp) if len(bp) > 24 else "")
+            # (a history of <= 60 calls cannot legitimately create more than 180 points)
+            pts = ids(list(reversed(bp[-400:]))) + ("..(%d)" % len(bp) if len(bp) > 400 else "")
         else:
             tr = pts = "-"
         return "%s/%s/%s/%d/%s" % (nat, tr, pts, 1 if s.pending_pop else 0, ids(s.log[-1]) if s.log else "-")
@@ -425,12 +426,14 @@ class PySide(object):
             return "err not-implemented"
         return "err " + type(e).__name__      # anything else is an outcome of its own (never swallowed)
 
-    def track(self, cfg, toks):
+    def track(self, cfg, toks, out=None, reads=None):
         """Run the ops on a fresh toy solver.  Returns (list of per-step snapshots / final 'err …',
-        list of (step index, value) for every `g` read)."""
+        list of (step index, value) for every `g` read).  `out` / `reads` may be passed in so that the caller still
+        has the steps done so far when the watchdog interrupts the run."""
         tracking = cfg[6] == "1"
         s = self.solver_class(cfg)(self.env)
-        out, reads = [], []
+        out = [] if out is None else out
+        reads = [] if reads is None else reads
         for i, t in enumerate(toks):
             try:
                 raised, val = self.apply_op(s, t)
@@ -485,7 +488,7 @@ class CaseTimeout(BaseException):
     """raised by the SIGALRM watchdog: one case ran longer than CASE_DEADLINE_S"""
 
 
-CASE_DEADLINE_S = 5.0        # a single history never needs more than milliseconds
+CASE_DEADLINE_S = 3.0        # a single history never needs more than milliseconds
 BUNDLE_BUDGET_S = 110.0      # set by run() from the tier's budget before the workers are forked
 
 
@@ -531,7 +534,7 @@ _HANGS = [0]
 
 def note_hang():
     _HANGS[0] += 1
-    if _BUNDLE_T0[0] is not None and _HANGS[0] >= 4:
+    if _BUNDLE_T0[0] is not None and _HANGS[0] >= 3:
         raise TooManyHangs()
 
 
@@ -878,14 +881,15 @@ def check_tracks(cfg, who, cases, res, search, use_lean=True, batch=None):
     for n, (toks, legal) in enumerate(cases):
         if n % 512 == 0:
             check_bundle_time()
+        out, reads = [], []
         try:
             with deadline():
-                out, reads, solver = P.track(cfg, toks)
+                out, reads, solver = P.track(cfg, toks, out, reads)
                 final = None
                 if search and legal and not (out and out[-1].startswith("err")):
                     final = P.final_observation(solver, tracking)
         except CaseTimeout:
-            out, reads, final = ["err hang"], [], None
+            out, reads, final = out[:len(toks) - 1] + ["err hang"], reads, None
             hung = True
         else:
             hung = False
@@ -1137,6 +1141,18 @@ def shrink(sig, rep):
     toks = rep[key].split()
     what = None
     attempts = 0
+    global CASE_DEADLINE_S
+    saved_deadline, CASE_DEADLINE_S = CASE_DEADLINE_S, 1.0      # a hanging candidate costs its whole deadline
+    t_stop = time.time() + 8.0
+    try:
+        return _shrink_loop(sig, rep, kind, key, toks, t_stop)
+    finally:
+        CASE_DEADLINE_S = saved_deadline
+
+
+def _shrink_loop(sig, rep, kind, key, toks, t_stop):
+    what = None
+    attempts = 0
 
     def fails(ts):
         r = Result()
@@ -1158,9 +1174,11 @@ def shrink(sig, rep):
                 return wh, rp
         return None
     changed = True
-    while changed and attempts < 200:
+    while changed and attempts < 200 and time.time() < t_stop:
         changed = False
         for i in range(len(toks)):
+            if time.time() > t_stop:
+                break
             cand = toks[:i] + toks[i + 1:]
             attempts += 1
             got = fails(cand)
@@ -1233,7 +1251,7 @@ def work(bundle):
             res.l.append(("harness bundle ran out of time (%d s)" % BUNDLE_BUDGET_S, "unfinished: %r" % (task,)))
             break
         except TooManyHangs:
-            res.count("bundles_stopped_after_4_hanging_cases")
+            res.count("bundles_stopped_after_3_hanging_cases")
             break
         except CaseTimeout:
             res.l.append(("harness bundle ran out of time (%d s)" % BUNDLE_BUDGET_S, "watchdog outside a case: %r" % (task,)))
@@ -1295,7 +1313,7 @@ def merge(ctx, res, agg):
     for sig, what, rep in res.s:
         if len(ctx.s_violations) < 200:
             key = repr(sorted(sig.items()))
-            if key not in shrunk and len(shrunk) < 8:
+            if key not in shrunk and len(shrunk) < 8 and time.time() < agg.setdefault("shrink_until", time.time() + 40.0):
                 shrunk.add(key)
                 try:
                     rep2, what2 = shrink(sig, rep)
@@ -1645,6 +1663,31 @@ def plan(ctx, placements):
     return tasks, {"script_depth": sdepth, "track_depth": tdepth, "z3_depth": zdepth, "depths": info_depths, "placements_searched": {c: w for c, w in by_cfg.items()}}
 
 
+class _LastResort(object):
+    """If everything else fails (a hang in a place no deadline covers), end the check instead of waiting: kill the
+    workers and exit with the infrastructure-error code.  Never triggered on a healthy run."""
+
+    def __init__(self, seconds):
+        import threading
+        self.pool = None
+        self.timer = threading.Timer(seconds, self.fire)
+        self.timer.daemon = True
+        self.timer.start()
+        self.seconds = seconds
+
+    def fire(self):
+        try:
+            sys.stderr.write("INFRA-ERROR: C16 harness still running after %d s; workers killed, giving up\n" % self.seconds)
+            sys.stderr.flush()
+            if self.pool is not None:
+                self.pool.terminate()
+        finally:
+            os._exit(2)
+
+    def cancel(self):
+        self.timer.cancel()
+
+
 def run(ctx):
     try:
         py()
@@ -1664,9 +1707,12 @@ def run(ctx):
     overall = max(30.0, min(ctx.time_left() - 10, 130.0 if ctx.tier == "quick" else 1100.0))
     t_end = time.time() + overall
     done = 0
+    deadline.armed = watchdog_install()     # shrinking re-runs failing cases in this process: same per-case deadline
+    last_resort = _LastResort(overall + 60.0)
     if ctx.workers > 1:
         import multiprocessing
         pool = multiprocessing.get_context("fork").Pool(ctx.workers)
+        last_resort.pool = pool
         try:
             it = pool.imap_unordered(work, bundles, chunksize=1)
             for _ in range(len(bundles)):
@@ -1676,8 +1722,12 @@ def run(ctx):
                     ctx.infra("C16 harness: %d of %d bundles did not finish within %d s; abandoned (no case may hang the check)"
                               % (len(bundles) - done, len(bundles), overall))
                     break
+                t1 = time.time()
                 merge(ctx, res, agg)
                 done += 1
+                if os.environ.get("VERIF_DEBUG"):
+                    sys.stderr.write("bundle %d/%d at %.1fs (merge %.1fs) %r\n" % (done, len(bundles), time.time() - t0, time.time() - t1,
+                                                                                {k: v for k, v in res.counters.items() if "stopped" in k or "skipped" in k}))
         finally:
             pool.terminate()
             pool.join()
@@ -1688,6 +1738,7 @@ def run(ctx):
                 break
             merge(ctx, work(b), agg)
             done += 1
+    last_resort.cancel()
     ctx.extra["driver_processes"] = len(bundles) + 1
     if ctx.tier == "thorough":
         native_check(ctx)
@@ -1709,6 +1760,7 @@ def run(ctx):
 
 def replay(ctx, rep):
     r = rep.get("replay", rep)
+    deadline.armed = watchdog_install()
     res = Result()
     kind = r.get("kind")
     if kind in ("script", "strict"):
